@@ -143,6 +143,8 @@ DstuBad(r) ==
                             \* the flipped trace bit selects the other point of this abscissa: -Q
                             /\ r.rcRecQf = 0 /\ DPt(r.recQf, no) = E2Neg(C, Q)
                             /\ DstuRecoverOk(C, PNorm(POfOct(r.xpQf)), DPt(r.recQf, no)[1], DPt(r.recQf, no)[2]))
+      \* dstu.h: point and xpoint may overlap: no placement gives a result different from the disjoint-buffer one
+      ovOk == Has(r, "ovComp") => (r.ovComp = <<>> /\ r.ovRec = <<>> /\ r.ovCompN > 0 /\ r.ovRecN > 0)
       signOk == IF ~dd.ok THEN TRUE
                 ELSE IF ~ldok \/ ~ed.ok THEN r.rcSign # 0
                 ELSE /\ r.rcSign = 0 /\ parts[3] /\ DstuSigInRange(parts[1], parts[2], n)
@@ -161,7 +163,7 @@ DstuBad(r) ==
            ELSE IF HeavyAlt(r, i) THEN (x.rc = 0) = DstuVerifyEq(C, P, n, DstuH(x.hash, m), p2[1], p2[2], Q2)
            ELSE x.rc # 0
   IN IF r.rcStd # 0 THEN {0}
-     ELSE Part(4, paramOk) \cup Part(1, genOk) \cup Part(5, cmpOk) \cup Part(2, signOk) \cup Part(3, verOk)
+     ELSE Part(4, paramOk) \cup Part(1, genOk) \cup Part(5, cmpOk) \cup Part(8, ovOk) \cup Part(2, signOk) \cup Part(3, verOk)
           \cup UNION {Part(10 + i, altOk(i)) : i \in 1..Len(r.alts)}
 
 \* recovery from a given compressed value, then compression of the result
